@@ -5,9 +5,10 @@
 //! plemma: C19 call-site precondition of KVStore::remove in cleanup_stale_updates / cleanup_stale_updates_for_monitor_to / cleanup_in_range and of both clean-up calls after the consolidating write in update_persisted_channel: id_of_name(key) <= stored_latest(monitor key) -- clean-up never deletes an update that recovery still needs
 //! trusted: R13: `for x in a..=b` rewritten into an explicit loop over the inclusive range
 //! trusted: R15 (deep slice): update_persisted_channel builds its result from async-move blocks (impl Future, outside the verifier); the unit extracts the body of the block that runs after the consolidating full-monitor write verbatim as an async fn of (monitor_name, latest_update_id, write_status), together with the function-local const LEGACY_CLOSED_CHANNEL_UPDATE_ID; its precondition is the meaning of a successful write: the stored full monitor then is the one just written (stored_latest == its latest_update_id); the decision update-vs-full-monitor and the writes themselves are dropped and not claimed
-//! trusted: R15 (deep slice): maybe_read_channel_monitor_with_updates joins futures and iterator adapters; the unit extracts the filter predicate that selects the updates to replay verbatim; sorting (sort_unstable on (id, name)), reading and applying the updates are dropped and not claimed
+//! trusted: R15 (deep slice): maybe_read_channel_monitor_with_updates joins futures and iterator adapters; the unit extracts the filter predicate that selects the updates to replay verbatim; and the statement(s) between collecting the listed names and filtering them (the sort) verbatim as a function of the list; `updates` is an environment type standing for Vec<UpdateName> whose sort / sort_unstable / sort_by_key / sort_unstable_by_key / reverse carry the std contracts (permutation; ordered by Ord / by the key; a key closure `|u| E`, which Verus gives no specification, is rewritten into the closure returning `(E) as i128` with that as its postcondition, so only integer keys of at most 64 bits are understood, anything else is a tool error), and the derived Ord of UpdateName is taken to be the lexicographic order on (id, name) (trusted: #[derive(Ord)] on a tuple struct); reading and applying the updates in iteration order (MultiResultFuturePoller keeps the order of its futures) are dropped and not claimed
 //! assume: stored_latest(key) is stable for the duration of the functions (no concurrent writer replaces the full monitor with an older one)
 use vstd::prelude::*;
+use vstd::std_specs::cmp::*;
 verus! {
 pub struct Error {}
 //@extract lightning/src/util/persist.rs :: const CHANNEL_MONITOR_PERSISTENCE_PRIMARY_NAMESPACE
@@ -165,5 +166,74 @@ impl MonitorUpdatingPersisterAsyncInner {
     update.0 >= current_update_id
 //@end
 }
+// ---- recovery: the order in which the stored updates are replayed ---------------------------------
+// `updates` stands for the Vec<UpdateName> of the source: a list whose sorting methods carry the std contracts
+// (the result is a permutation of the input, ordered by the element order / by the key), and UpdateName's derived
+// Ord is the lexicographic order on (id, name).
+pub uninterp spec fn str_le(a: Seq<char>, b: Seq<char>) -> bool;
+pub open spec fn name_le(a: UpdateName, b: UpdateName) -> bool { a.0 < b.0 || (a.0 == b.0 && str_le(a.1@, b.1@)) }
+pub struct Updates { pub v: Vec<UpdateName> }
+impl Updates {
+    #[verifier::external_body]
+    pub fn sort_unstable(&mut self)
+        ensures final(self).v@.to_multiset() == old(self).v@.to_multiset(), final(self).v@.len() == old(self).v@.len(),
+            forall|i: int, j: int| 0 <= i < j < final(self).v@.len() ==> name_le(#[trigger] final(self).v@[i], #[trigger] final(self).v@[j]),
+    { unimplemented!() }
+    #[verifier::external_body]
+    pub fn sort(&mut self)
+        ensures final(self).v@.to_multiset() == old(self).v@.to_multiset(), final(self).v@.len() == old(self).v@.len(),
+            forall|i: int, j: int| 0 <= i < j < final(self).v@.len() ==> name_le(#[trigger] final(self).v@[i], #[trigger] final(self).v@[j]),
+    { unimplemented!() }
+    // keys are integer expressions, compared as i128 (order-preserving for every integer type up to 64 bits); see the rw below
+    #[verifier::external_body]
+    pub fn sort_unstable_by_key<F: Fn(&UpdateName) -> i128>(&mut self, f: F)
+        requires forall|u: &UpdateName| f.requires((u,)),
+        ensures final(self).v@.to_multiset() == old(self).v@.to_multiset(), final(self).v@.len() == old(self).v@.len(),
+            forall|i: int, j: int| #![trigger final(self).v@[i], final(self).v@[j]] 0 <= i < j < final(self).v@.len() ==> exists|ki: i128, kj: i128|
+                #![trigger f.ensures((&final(self).v@[i],), ki), f.ensures((&final(self).v@[j],), kj)]
+                f.ensures((&final(self).v@[i],), ki) && f.ensures((&final(self).v@[j],), kj) && ki <= kj,
+    { unimplemented!() }
+    #[verifier::external_body]
+    pub fn sort_by_key<F: Fn(&UpdateName) -> i128>(&mut self, f: F)
+        requires forall|u: &UpdateName| f.requires((u,)),
+        ensures final(self).v@.to_multiset() == old(self).v@.to_multiset(), final(self).v@.len() == old(self).v@.len(),
+            forall|i: int, j: int| #![trigger final(self).v@[i], final(self).v@[j]] 0 <= i < j < final(self).v@.len() ==> exists|ki: i128, kj: i128|
+                #![trigger f.ensures((&final(self).v@[i],), ki), f.ensures((&final(self).v@[j],), kj)]
+                f.ensures((&final(self).v@[i],), ki) && f.ensures((&final(self).v@[j],), kj) && ki <= kj,
+    { unimplemented!() }
+    #[verifier::external_body]
+    pub fn reverse(&mut self)
+        ensures final(self).v@ == old(self).v@.reverse(),
+    { unimplemented!() }
+}
+//@extract lightning/src/util/persist.rs :: impl MonitorUpdatingPersisterAsyncInner :: fn maybe_read_channel_monitor_with_updates
+//@slice R15
+    let mut updates = updates?; $sort:straight let updates_to_load = updates.iter().filter(
+//@with
+    fn order_updates(updates: &mut Updates) { $sort }
+//@rw ? R10
+    .sort_unstable_by_key(|$p:ident| $e:seq)
+//@with
+    .sort_unstable_by_key(|$p: &UpdateName| -> (k: i128) ensures k == ($e) as i128 { ($e) as i128 })
+//@rw ? R10
+    .sort_by_key(|$p:ident| $e:seq)
+//@with
+    .sort_by_key(|$p: &UpdateName| -> (k: i128) ensures k == ($e) as i128 { ($e) as i128 })
+//@ensures P C19 recovery-replays-the-stored-updates-in-ascending-update-id-order-and-drops-none
+    final(updates).v@.to_multiset() == old(updates).v@.to_multiset(),
+    forall|i: int, j: int| 0 <= i < j < final(updates).v@.len() ==> (#[trigger] final(updates).v@[i]).0 <= (#[trigger] final(updates).v@[j]).0,
+//@mutant updates_not_sorted
+    updates.sort_unstable();
+//@with
+    
+//@mutant sorted_by_truncated_id
+    updates.sort_unstable();
+//@with
+    updates.sort_unstable_by_key(|update| update.0 as u32);
+//@mutant sorted_descending
+    updates.sort_unstable();
+//@with
+    updates.sort_unstable(); updates.reverse();
+//@end
 }
 fn main() {}
